@@ -42,27 +42,27 @@ CHECKS = {
               "defined type carrying @immutable in the package or a direct import, the field not @mutable, the enclosing declaration not a @constructor function of the type in the type's own "
               "package, and the diagnostic not suppressed (imm_reports, proved equivalent to the executable per-node check; the stateful walk proved equal to a per-node check under the declaration's "
               "context, so placement/nesting is irrelevant); index lookups proved to mean the annotations. The model is run against the real binary on every generated world (whole-module runs, "
-              "compared by file/line/code under two configurations)."),
+              "compared by file/line/code under two configurations). END TO END (C01_whole_analysis): in the result of the whole per-package analysis - annotation reader, @ignore reader, IgnoreSet, all five checkers - the diagnostics with a code of this checker are exactly the output characterised above, under the facts (own annotations, then those of the direct imports) and the suppression (the package's @ignore comments, exclude-checks) that the analysis assembles itself; the five code sets are disjoint."),
         note="Fragment: non-generic defined types, direct imports, one candidate per line; go/parser + go/types facts are inputs serialised verbatim by `ggx skel`; well-formedness (no FuncDecl nested in a declaration) evaluated by the model on every serialised package.",
         technique="Coq proof (walk = per-node relation from the property text) + model/implementation correspondence on generated multi-package programs"),
     "C02": dict(
         text=("Theorem (Coq): a CTOR diagnostic is reported iff some node of some top-level declaration of a non-excluded file is a composite literal (CTOR01; T{}, &T{}, elided elements via the "
               "recorded type), a one-argument new(e) (CTOR02), or a non-blank name of a var spec without initialiser whose type is the defined type itself (CTOR03), of a type with a non-empty "
               "@constructor list in the package or a direct import, outside those functions of the type's own package (a package-level declaration is in no function), and not suppressed. Same "
-              "correspondence as C01."),
+              "correspondence as C01. END TO END (C02_whole_analysis): in the result of the whole per-package analysis - annotation reader, @ignore reader, IgnoreSet, all five checkers - the diagnostics with a code of this checker are exactly the output characterised above, under the facts (own annotations, then those of the direct imports) and the suppression (the package's @ignore comments, exclude-checks) that the analysis assembles itself; the five code sets are disjoint."),
         note="Fragment: non-generic defined types, direct imports, one candidate per line; go/parser + go/types facts are inputs serialised verbatim by `ggx skel`; well-formedness (no FuncDecl nested in a declaration) evaluated by the model on every serialised package.",
         technique="Coq proof (walk = per-node relation from the property text) + model/implementation correspondence on generated multi-package programs"),
     "C03": dict(
         text=("Theorems (Coq): per file the TONL diagnostics are nothing for *_test.go, else the candidates in walk order filtered by ignore-first-then-once-per-(package,type): reported iff "
               "unsuppressed and (no key, or the FIRST unsuppressed candidate of its key) — proved for every candidate list; only the root of a declaration can be pruned and the body of a "
               "@testonly function/method yields nothing; the candidate nodes are characterised exactly (call of a function object that resolves to an annotated package-level function, pkg.F, method call through aliases and one pointer, composite literal / typed spec / field of an annotated type - C03_candidate_nodes), so a bare callee counts only if it resolves to the annotated function (name sharing never reported); the three indices "
-              "mean the annotations, same package and direct imports alike. Same correspondence as C01."),
+              "mean the annotations, same package and direct imports alike. Same correspondence as C01. END TO END (C03_whole_analysis): in the result of the whole per-package analysis - annotation reader, @ignore reader, IgnoreSet, all five checkers - the diagnostics with a code of this checker are exactly the output characterised above, under the facts (own annotations, then those of the direct imports) and the suppression (the package's @ignore comments, exclude-checks) that the analysis assembles itself; the five code sets are disjoint."),
         note="Fragment: non-generic defined types, direct imports, one candidate per line; go/parser + go/types facts are inputs serialised verbatim by `ggx skel`; well-formedness (no FuncDecl nested in a declaration) evaluated by the model on every serialised package. The receiver field of a non-@testonly method on a @testonly type and promoted methods are left unspecified (DESIGN 5.1); dot-imported names are generated and compared.",
         technique="Coq proof (first-unsuppressed-use characterisation of the dedup fold, pruning lemma) + model/implementation correspondence"),
     "C04": dict(
         text=("Theorems (Coq): the attachment list of an item is the union of all its @packageonly lists (own + direct-import facts); a reference is a candidate iff the item is declared in another "
               "package, annotated, and neither the using package's path nor its name is in the union (proved with the exact message for functions, types and methods, and with the exact set of nodes that are looked at: selectors whose object lives in another package, and plain identifiers - not the selected identifier of a selector - whatever package their object lives in: the analysed one, never denied, or one brought in by a dot import); "
-              "references from the declaring package are never candidates; per file ignore-first, PKGO01 once per (package,type), PKGO02/03 each (same dedup theorem as C03). Same correspondence as C01."),
+              "references from the declaring package are never candidates; per file ignore-first, PKGO01 once per (package,type), PKGO02/03 each (same dedup theorem as C03). Same correspondence as C01. END TO END (C04_whole_analysis): in the result of the whole per-package analysis - annotation reader, @ignore reader, IgnoreSet, all five checkers - the diagnostics with a code of this checker are exactly the output characterised above, under the facts (own annotations, then those of the direct imports) and the suppression (the package's @ignore comments, exclude-checks) that the analysis assembles itself; the five code sets are disjoint."),
         note="Fragment: non-generic defined types, direct imports, one candidate per line; go/parser + go/types facts are inputs serialised verbatim by `ggx skel`; well-formedness (no FuncDecl nested in a declaration) evaluated by the model on every serialised package. Fields of @packageonly structs and promoted methods are left unspecified (DESIGN 5.1); dot-imported names are generated and compared since fix 8110a7d.",
         technique="Coq proof (union/denied characterisation, dedup theorem) + model/implementation correspondence"),
     "C05": dict(
@@ -72,7 +72,7 @@ CHECKS = {
               "methods are exactly those, in the interface's order (last-wins map = the unique method, names being unique); a correct annotation is silent; at most one code per annotation; the "
               "signature comparison is an equivalence that sees through aliases, compares basic types by kind, counts pointers, accepts an exact copy and needs equal arities. Method sets and "
               "interface completion are go/types inputs serialised verbatim. Tied to the code on generated interface/type pairs: binary = model by (file, line, column, code, message) and "
-              "binary = Go's own verdict (import scoping, scope lookup, NewMethodSet + Identical, cross-checked with types.Implements) including the names of the missing methods."),
+              "binary = Go's own verdict (import scoping, scope lookup, NewMethodSet + Identical, cross-checked with types.Implements) including the names of the missing methods. END TO END (C05_whole_analysis): in the result of the whole per-package analysis - annotation reader, @ignore reader, IgnoreSet, all five checkers - the diagnostics with a code of this checker are exactly the output characterised above, under the facts (own annotations, then those of the direct imports) and the suppression (the package's @ignore comments, exclude-checks) that the analysis assembles itself; the five code sets are disjoint."),
         note="Fragment: non-generic types and interfaces; no @implements on an alias declaration. Methods are identified by (package of an unexported name, name) as Go does (fix 1e9bd0c). types.Identical is a library model - equality of normal forms (aliases removed at every depth, basic types by kind), proved to be exactly that (identical a b = true <-> norm a = norm b) - exercised against go/types on every generated pair.",
         technique="Coq proof (resolution, three-phase characterisation, signature-matching laws) + correspondence with the model and with Go's type checker as independent oracle"),
     "C06": dict(
@@ -106,7 +106,7 @@ CHECKS = {
               "parser), everything else decided as before; for report-time checkers the new output is the FILTER of the old one; for TONL01/PKGO01 the reported use of a key is the first "
               "unsuppressed one, for every suppression function. Tied to the code by generated worlds with @ignore comments inserted at the property's placements, stratified over placement x line "
               "shape x code category x code-list class: binary = model by (file,line,code), and binary(with comments) = binary(without) minus the matching diagnostics inside the documented scope "
-              "computed from go/parser positions (an oracle independent of the model)."),
+              "computed from go/parser positions (an oracle independent of the model). END TO END (C07_whole_analysis_one_more_comment): one more @ignore comment anywhere in the comment list of a non-excluded file gives the same annotations and exactly the diagnostics of the original analysis re-decided under 'covered by the new marker, or suppressed as before' (the marker order is irrelevant: the decision is an existsb over the history); for IMPL / IMM / CTOR codes a diagnostic is in the new result iff it was in the old one and is not covered (C07_whole_analysis_report_time_effect)."),
         note="A stand-alone comment that is the last thing of its block, precedes a case clause or sits inside a multi-line expression, and files with //line directives, are left unspecified (DESIGN 5.1).",
         technique="Coq proof (pruned-walk = first node after the comment; marker = filter; first-unsuppressed-use) + model and text-oracle correspondence through the real binary"),
     "C17": dict(
